@@ -107,6 +107,32 @@ class Q(Fraction):
             return a._wrap(Fraction.__pow__(a, int(b)))
         return float(a) ** float(b)
 
+    def _cmp(a, b, op):
+        bb = _lift(b)
+        if bb is NotImplemented:
+            return NotImplemented
+        return op(Fraction(a.numerator, a.denominator), bb)
+
+    def __lt__(a, b):
+        return a._cmp(b, lambda x, y: x < y)
+
+    def __le__(a, b):
+        return a._cmp(b, lambda x, y: x <= y)
+
+    def __gt__(a, b):
+        return a._cmp(b, lambda x, y: x > y)
+
+    def __ge__(a, b):
+        return a._cmp(b, lambda x, y: x >= y)
+
+    def __eq__(a, b):
+        bb = _lift(b)
+        if bb is NotImplemented:
+            return Fraction.__eq__(a, b)
+        return Fraction.__eq__(a, bb)
+
+    __hash__ = Fraction.__hash__
+
     def __neg__(a):
         return a._wrap(Fraction.__neg__(a))
 
